@@ -463,8 +463,10 @@ def inert_spec(r, sand=False):
     if sand:
         return {'kind': 'inert', 'isfluid': False, 'iscompressible': False, 'rho_p': r.uniform(1500., 2650.), 'gamma': 30.,
                 'beta': 0.0007, 'co': 2.9e-9, 'fp_type': 1}
-    return {'kind': 'inert', 'isfluid': r.random() < 0.8, 'iscompressible': r.random() < 0.7, 'rho_p': r.uniform(700., 960.),
-            'gamma': r.uniform(20., 45.), 'beta': r.uniform(3e-4, 1e-3), 'co': r.uniform(1e-9, 5e-9),
+    # buoyant oil-like particle at every ocean depth: API gravity 30-45 (<= 876 kg/m^3 at 60 deg F), compressibility and thermal
+    # expansion of crude oils (at most ~10 % denser at 3000 m / 2 deg C)
+    return {'kind': 'inert', 'isfluid': r.random() < 0.8, 'iscompressible': r.random() < 0.7, 'rho_p': r.uniform(700., 940.),
+            'gamma': r.uniform(30., 45.), 'beta': r.uniform(3e-4, 1e-3), 'co': r.uniform(5e-10, 3e-9),
             'fp_type': r.choice([1, 1, 0])}
 
 
@@ -1801,7 +1803,10 @@ def _psm_model(S):
 
 def _dead_oil(r, live=False):
     """substance dictionary of database compounds: dead oil (liquids only) or live oil (with light gases)"""
-    heavy = r.sample(HC_LIQ[3:], r.randint(2, 5))
+    # compounds that stay liquid at standard conditions (15 deg C, 1 atm) also when natural gas is mixed in
+    heavy = r.sample(['n-hexane', 'n-heptane', 'benzene', 'toluene', 'ethylbenzene', 'n-decane'], r.randint(2, 5))
+    if 'n-decane' not in heavy and 'ethylbenzene' not in heavy:
+        heavy[0] = 'n-decane'
     if live:
         light = ['methane'] + r.sample(['ethane', 'propane'], r.randint(0, 2))
         comp = light + heavy
@@ -1876,7 +1881,9 @@ def _util_oil(S):
             mfg, mfo = np.zeros(len(lc)), np.zeros(len(lc))
             mfg[:len(gas_mf)] = gas_mf
             mfo[len(gas_mf):] = dmf
-            beta = r.uniform(0.02, 0.6)
+            # gas mass fraction near the one the GOR implies (the first guess of mix_gas_for_gor), so that gas and oil coexist
+            m_g, m_o = 0.68 * g * 0.0283168, 800. * 0.158987
+            beta = min(0.9, m_g / (m_g + m_o) * r.uniform(0.5, 1.5))
             S.attempt(U + 'gas_fraction', 'standard-conditions', dict(dead, beta=beta, gor_0=g),
                       lambda: du.gas_fraction(beta, g, loil, mfg.copy(), mfo.copy(), 288.15, 101325.))
             q = lu(r, 500., 1e5)
